@@ -203,7 +203,7 @@ struct DropParams {
 
 fn drop_scenario(pr: &DropParams) -> Verdict {
     e3::set_hash_key(pr.hash_key);
-    world::reset(world::WorldCfg { nested_env: false, yields: true, select: true, policy: pr.policy });
+    world::reset(world::WorldCfg { nested_env: false, yields: true, select: true, policy: pr.policy, coop: false });
     let ty = pr.ty;
     let a = e3::raw_conn("A");
     let b = e3::raw_conn("B");
@@ -319,7 +319,7 @@ fn drop_scenario(pr: &DropParams) -> Verdict {
 /// application drops the socket at once.
 fn handoff_scenario(hash_key: u64, policy: u8, drop_immediately: bool) -> Verdict {
     e3::set_hash_key(hash_key);
-    world::reset(world::WorldCfg { nested_env: false, yields: true, select: true, policy });
+    world::reset(world::WorldCfg { nested_env: false, yields: true, select: true, policy, coop: false });
     let a = e3::raw_conn("A");
     let b = e3::raw_conn("B");
     a.send(&rc::handshake("REP", Some(b"A")));
